@@ -60,7 +60,9 @@ class C19(Prop):
     rule = ("byte strings: (a) exhaustive over the 13-symbol alphabet { @ \\ { } - \" ( LF e n d SP x } up to length "
             "4 (quick) / 6 (thorough); (b) random concatenations of 1..20 lexemes from the 76-lexeme alphabet "
             "(every token spelling, directives, escapes, comment open/close, quotes, CRLF, UTF-8). NUL bytes are "
-            "excluded (the lexer treats NUL as end of input; outside the property's alphabet). A case is "
+            "excluded (the lexer treats NUL as end of input; outside the property's alphabet); (c) cursor cases: inputs "
+            "rich in multi-line tokens, for which Position.Contains is evaluated at the cursor of every byte offset for "
+            "every token and must say 'inside' exactly for the offsets of the token's own byte range. A case is "
             "non-trivial when it yields at least two tokens; distinct = distinct source strings.")
     explanation = ("Theorems: the lexer's per-character counters equal the pure position function lc at every "
                    "reachable offset (invariant by induction over readChar), every fixed-width token and the EOF "
@@ -83,7 +85,16 @@ class C19(Prop):
             k = rng.choice([1, 2, 3, 4, 5, 6, 8, 12, 20])
             srcs.append(b"".join(rng.choice(LEXEMES) for _ in range(k)))
         lines = ["C19:%d\tlex\t%s" % (i, hx(s)) for i, s in enumerate(srcs)]
-        return lines, {"exhaustive": False, "distribution": distribution(srcs),
+        # cursors: token.Position.Contains at the cursor of EVERY byte offset, for every token, on inputs with
+        # multi-line tokens (text, strings and comments holding newlines) starting at a column > 0
+        ML = [b"ab\ncd", b"\n", b"x\n\ny", b"\"s1\ns2\"", b"'q\n'", b"{{-- c\nc --}}", b"\r\n", b"<p>\n  t\n</p>", b"\xc3\xa9\n"]
+        ncur = {"quick": 4000, "thorough": 60000, "search": 8000}[tier]
+        csrcs = [b"<div>\n  {{ x = \"first line\n2\" }}\n</div>\n", b"a{{ \"b\nc\" }}d\ne", b"{{ 1 }}\n</div>\n", b"ab\ncd{{ 'x\ny' }}"]
+        for _ in range(ncur):
+            k = rng.choice([1, 2, 3, 4, 6, 9])
+            csrcs.append(b"".join(rng.choice(ML) if rng.random() < 0.4 else rng.choice(LEXEMES) for _ in range(k)))
+        lines += ["C19:c%d\tlexc\t%s" % (i, hx(s)) for i, s in enumerate(csrcs)]
+        return lines, {"exhaustive": False, "distribution": distribution(srcs + csrcs), "cursor_cases": len(csrcs),
                        "exhaustive_part": "all strings over 13 symbols up to length %d" % maxlen}
 
     def nontrivial(self, r):
@@ -514,6 +525,16 @@ class C08(Prop):
                     m = list(atoms)
                     m.insert(i + 1, (rng.choice(["#", "$", "~", "^", "&", "|", "`"]), 0))
                     cases.append(("C08e", "parse", "".join(x for x, _ in m).encode()))
+        # an illegal character in every slot where the grammar expects a name, a key, an argument or an operand
+        slots = ["{{ {%s: 1} }}", "{{ {a: 1, %s: 2} }}", "{{ {%s} }}", "@each(%s in [1, 2])x@end", "@each(v in %s)x@end", "@reserve(%s)", "@slot(%s)x@end",
+                 "@slot(%s)", "@insert(%s, 1)", "@insert('a', %s)", "@insert(%s)x@end", "@use(%s)", "{{ x.%s }}", "{{ x.%s() }}", "@for(%s = 0; i < 1; i++)x@end",
+                 "@for(i = 0; %s; i++)x@end", "@for(i = 0; i < 1; %s)x@end", "{{ [%s] }}", "{{ [1, %s] }}", "{{ 'a'.len(%s) }}", "@component(%s)",
+                 "@component('c', %s)", "@component('c', {%s: 1})", "@if(%s)x@end", "@if(true)x@elseif(%s)y@end", "@breakIf(%s)", "@continueIf(%s)",
+                 "@dump(%s)", "{{ %s }}", "{{ 1 + %s }}", "{{ %s + 1 }}", "{{ -%s }}", "{{ true ? %s : 1 }}", "{{ true ? 1 : %s }}", "{{ x[%s] }}",
+                 "{{ %s = 1 }}", "{{ x = %s }}", "{{ x %s }}", "{{ (%s) }}", "{{ %s++ }}"]
+        for tpl in slots:
+            for ch in ["#", "$", "~", "^", "&", "|", "`", "\\", "\x01", "\xc3\xa9", "@"]:
+                cases.append(("C08e", "parse", (tpl % ch).encode("latin-1") if ch in ("\x01",) else (tpl % ch).encode()))
         nsoup = {"quick": 8000, "thorough": 100000, "search": 20000}[tier]
         for _ in range(nsoup):
             k = rng.choice([4, 5, 6, 8, 12, 20, 30])
@@ -1546,13 +1567,20 @@ class C16(Prop):
              ("tpl/components/card.tw", "file", "[{{ v }}@slot]"),
              ("tpl/bad.tw", "file", "partial {{ n }}\n{{ zz }}"),
              ("tpl/bad2.tw", "file", "{{ n.nofunc() }}"),
-             ("tpl/errpg.tw", "file", "<h1>custom error page</h1>")]
+             ("tpl/errpg.tw", "file", "<h1>custom error page</h1>"),
+             # a render without data that assigns at top level must leave nothing behind for the next one
+             ("tpl/setter.tw", "file", "{{ title = \"Hello\" }}<h1>{{ title }}</h1>"),
+             ("tpl/reader.tw", "file", "<p>{{ title }}</p>"),
+             ("tpl/shuf.tw", "file", "{{ items.shuffle().len() }}{{ [1, 2, 3, 4, 5, 6].shuffle().len() }}")]
 
-    def opset(self):
-        return [op_string("home", TREE_DATA), op_string("bad", TREE_DATA), op_string("missing", TREE_DATA), op_string("cards", TREE_DATA),
+    def opset(self, shuffle=False):
+        extra = [op_string("shuf", TREE_DATA), op_evalstr("{{ [1, 2, 3, 4].shuffle().len() }}")] if shuffle else []
+        return extra + [op_string("home", TREE_DATA), op_string("bad", TREE_DATA), op_string("missing", TREE_DATA), op_string("cards", TREE_DATA),
                 op_response("home", TREE_DATA), op_response("bad", TREE_DATA), op_response("bad2", TREE_DATA),
                 op_evalstr("{{ n * 2 }}", TREE_DATA), op_evalstr("{{ zz }}"), op_evalfile("tpl/bad.tw", TREE_DATA),
-                op_evalfile("tpl/components/card.tw", "((%s (int 1)))" % hx("v"))]
+                op_evalfile("tpl/components/card.tw", "((%s (int 1)))" % hx("v")),
+                op_string("setter"), op_string("reader"), op_response("reader"),
+                op_evalstr("{{ cnt = \"three\" }}{{ cnt }}"), op_evalstr("{{ cnt = 3 }}{{ cnt }}{{ title = 1 }}")]
 
     def generate(self, rng, tier):
         ops = self.opset()
@@ -1789,6 +1817,23 @@ class C18(Prop):
         base = [("tpl/pg.tw", "@use('~m')@insert('t', 1)@component('~c', {a: 2})@slot body@end"), ("tpl/layouts/m.tw", "<l>@reserve('t')</l>"),
                 ("tpl/components/c.tw", "[{{ a }}@slot]"), ("tpl/plain.tw", "@if(true)ok@else no@end{{ 1 + 2 }}")]
         j = 0
+        # a component referenced only from a layout, and a layout referenced only through a nested page
+        base_b = [("tpl/pg.tw", "@use('~m')@insert('t', 1)"), ("tpl/layouts/m.tw", "<l>@component('~nav')@reserve('t')</l>"),
+                  ("tpl/components/nav.tw", "[nav]"), ("tpl/plain.tw", "ok"), ("tpl/sub/pg2.tw", "@use('~m')@insert('t')x@end")]
+        for vname, kind in [("deleted", None), ("dir", "dir"), ("dangling", "dangling"), ("garbage", "file")]:
+            for victim in ("tpl/components/nav.tw", "tpl/layouts/m.tw"):
+                files = []
+                for p2, c2 in base_b:
+                    if p2 == victim:
+                        if kind is not None:
+                            files.append((p2, kind, "@if({{ ] ) @end {" if kind == "file" else ""))
+                    else:
+                        files.append((p2, "file", c2))
+                lines.append(tree_case("C18:f%d" % j, files, [op_new("tpl", ".tw"), op_string("plain")], ["nopanic", "err:0", "msgsub:0:" + hx("")]))
+                j += 1
+        lines.append(tree_case("C18:f%d" % j, [(p2, "file", c2) for p2, c2 in base_b], [op_new("tpl", ".tw"), op_string("pg"), op_string("sub/pg2")],
+                               ["nopanic", "ok:0"]))   # what a component inside a LAYOUT renders is outside C06/C07/C18 (model = implementation only)
+        j += 1
         for fi, (path, content) in enumerate(base):
             variants = [("garbage", "file", "@if({{ ] ) @end {"), ("dangling", "dangling", ""), ("dir", "dir", "")]
             if path != "tpl/pg.tw" and path != "tpl/plain.tw":
@@ -1825,7 +1870,7 @@ class C18(Prop):
                 continue
             path = binascii.unhexlify(first[2]).decode() if first[2] != "-" else ""
             msg = binascii.unhexlify(first[3]).decode(errors="replace") if first[3] != "-" else ""
-            if not path and not any(x in msg for x in ("layouts/m", "components/c", "~m", "~c", "tpl")):
+            if not path and not any(x in msg for x in ("layouts/m", "components/c", "components/nav", "~nav", "~m", "~c", "tpl")):
                 bad.append((r, "the load error identifies no file: " + msg[:80]))
         return bad
 
@@ -2207,7 +2252,9 @@ class C15(Prop):
 
     def generate(self, rng, tier):
         files = C16.FILES
-        ops = C16().opset()
+        # shuffle() is random, but the LENGTH of its result is not: these operations exercise the random source
+        # concurrently while keeping every observation comparable with the sequential baseline
+        ops = C16().opset(shuffle=True)
         lines = []
         i = 0
         for errpage, debug in (("", 0), ("errpg", 0), ("errpg", 1), ("", 1)):
